@@ -179,3 +179,39 @@ func H_C19_fp() {
 	vrt.Assert("bit-precise: Result is the correctly rounded quotient of the counters", res == float64(acc.correct)/float64(acc.total))
 	vrt.Reach("done")
 }
+
+// H_C19_big: one Accumulate of a batch at a ladder size (hundreds to thousands of positions): fixed
+// match pattern except a handful of solver-chosen positions (head, tail, every 509th), fresh or
+// arbitrary pre-state.  For code paths that exist only above a size threshold.
+func H_C19_big() {
+	acc, T, C := zzPre()
+	n := vrt.Param("n")
+	pd := make([]float64, n)
+	td := make([]float64, n)
+	matched := 0
+	for k := 0; k < n; k++ {
+		td[k] = float64(k%5) + 1
+		if k < 2 || k >= n-9 || k%509 == 0 {
+			hit := vrt.Bool(vrt.Nm("hit", k))
+			pd[k] = vrt.IteF(hit, td[k], 0)
+			matched += vrt.IteI(hit, 1, 0)
+		} else if k%3 == 0 {
+			pd[k] = td[k]
+			matched++
+		}
+	}
+	yp, e1 := tensor.TensorOf(pd, nil)
+	yt, e2 := tensor.TensorOf(td, nil)
+	if e1 != nil || e2 != nil {
+		vrt.Assume(false)
+	}
+	err := acc.Accumulate(yp, yt)
+	vrt.Assert("valid batch accepted", err == nil)
+	if err != nil {
+		return
+	}
+	vrt.Assert("large batch: total grows by the batch size", acc.total == T+n)
+	vrt.Assert("large batch: correct grows by the number of equal positions", acc.correct == C+matched)
+	zzCheckResult("after a large batch", acc, T+n, C+matched)
+	vrt.Reach("done")
+}
